@@ -453,8 +453,8 @@ static void run_cmd(char *line)
   else if (!strcmp(c, "RM")) { char *p = dec(tok[1], NULL); unlink(p); free(p); }
   else if (!strcmp(c, "CD")) { char *p = dec(tok[1], NULL); if (chdir(p)) perror("chdir"); free(p); }
   else if (!strcmp(c, "G")) {
-    if (!strcmp(tok[1], "owner")) econf_requireOwner((uid_t)atoi(tok[2]));
-    else if (!strcmp(tok[1], "group")) econf_requireGroup((gid_t)atoi(tok[2]));
+    if (!strcmp(tok[1], "owner")) econf_requireOwner((uid_t)strtoul(tok[2], NULL, 10));
+    else if (!strcmp(tok[1], "group")) econf_requireGroup((gid_t)strtoul(tok[2], NULL, 10));
     else if (!strcmp(tok[1], "nosymlink")) econf_followSymlinks(atoi(tok[2]) == 0);
     else if (!strcmp(tok[1], "perms")) econf_requirePermissions((mode_t)strtol(tok[2], NULL, 8), (mode_t)strtol(tok[3], NULL, 8));
     else if (!strcmp(tok[1], "reset")) econf_reset_security_settings();
